@@ -394,6 +394,331 @@ async fn reconnect_case(rep: &mut Report, ivl: u64, max: u64) {
   let _ = tokio::time::timeout(Duration::from_secs(12), rctx.term()).await;
 }
 
+/// (refused) nobody listens on the target: every connect() is refused at once and the connecter's own retry loop paces
+/// the attempts (a different piece of code from the one that reschedules after an established connection was lost).
+/// Observed at the monitor: the interval each ConnectRetried event announces, and the wall-clock gaps between those
+/// events; afterwards a real PULL binds the port and traffic must flow.
+async fn refused_case(rep: &mut Report, ivl: u64, max: u64) {
+  let ctx = util::new_ctx();
+  let push = ctx.socket(SocketType::Push).unwrap();
+  util::set_i32(&push, opt::RECONNECT_IVL, ivl as i32).await;
+  util::set_i32(&push, opt::RECONNECT_IVL_MAX, max as i32).await;
+  util::set_i32(&push, opt::SNDTIMEO, 8000).await;
+  let mon = push.monitor(1024).await.unwrap();
+  // a port outside the ephemeral range on which nothing listens
+  let mut port = 0u16;
+  for k in 0..50u32 {
+    let p = 30_000 + ((std::process::id() * 53 + k * 211 + (ivl as u32) * 7 + max as u32) % 2_700) as u16;
+    if tokio::net::TcpStream::connect(("127.0.0.1", p)).await.is_err() {
+      port = p;
+      break;
+    }
+  }
+  if port == 0 {
+    rep.inconclusive("no dead tcp port found".to_string());
+    return;
+  }
+  let ep = format!("tcp://127.0.0.1:{}", port);
+  let _ = push.connect(&ep).await;
+  let observe = Duration::from_millis(if max > 0 { max * 5 + ivl * 4 } else { ivl * 12 }.clamp(2500, 9000));
+  let t0 = Instant::now();
+  let mut announced: Vec<u64> = vec![];
+  let mut stamps: Vec<Instant> = vec![];
+  while t0.elapsed() < observe && stamps.len() < 12 {
+    match tokio::time::timeout(observe.saturating_sub(t0.elapsed()), mon.recv()).await {
+      Ok(Ok(SocketEvent::ConnectRetried { interval, .. })) => {
+        announced.push(interval.as_millis() as u64);
+        stamps.push(Instant::now());
+      }
+      Ok(Ok(_)) => {}
+      _ => break,
+    }
+  }
+  rep.case(&("refused", ivl, max), true);
+  let cfg = format!("RECONNECT_IVL={}ms RECONNECT_IVL_MAX={}ms, target refuses connections", ivl, max);
+  let gaps_ms: Vec<u64> = stamps.windows(2).map(|w| (w[1] - w[0]).as_millis() as u64).collect();
+  rep.note(format!("{} -> announced intervals {:?} ms, gaps between retries {:?} ms", cfg, announced, gaps_ms));
+  rep.count("refused_retries_observed", stamps.len() as u64);
+  let wit = json!({"config": cfg, "announced_ms": announced, "gaps_ms": gaps_ms});
+  if stamps.len() < 3 {
+    rep.violation("no_retry_seen_while_refused".to_string(), format!("{}: only {} ConnectRetried event(s) within {:?}", cfg, stamps.len(), observe), wit.clone());
+  }
+  let slack = 150u64; // no maintenance tick on this path: sleep(delay) then connect, refused at once
+  for (k, a) in announced.iter().enumerate() {
+    if max > 0 && max >= ivl && *a > max {
+      rep.violation("announced_retry_interval_exceeds_ivl_max".to_string(), format!("{}: retry {} announces an interval of {} ms", cfg, k, a), wit.clone());
+      break;
+    }
+    if *a + 1 < ivl.min(if max > 0 { max } else { ivl }) {
+      rep.violation("announced_retry_interval_below_ivl".to_string(), format!("{}: retry {} announces an interval of {} ms", cfg, k, a), wit.clone());
+      break;
+    }
+  }
+  for (k, g) in gaps_ms.iter().enumerate() {
+    if max > 0 && max >= ivl && *g > max + slack {
+      rep.violation("refused_retry_gap_exceeds_ivl_max".to_string(), format!("{}: gap {} between retries is {} ms", cfg, k, g), wit.clone());
+      break;
+    }
+    if *g + 20 < ivl.min(if max > 0 { max } else { ivl }) {
+      rep.violation("refused_retry_sooner_than_ivl".to_string(), format!("{}: gap {} between retries is {} ms", cfg, k, g), wit.clone());
+      break;
+    }
+    if k > 0 && *g > gaps_ms[k - 1] * 2 + slack {
+      rep.violation("refused_retry_gap_grows_faster_than_geometric".to_string(), format!("{}: gap {} is {} ms after {} ms", cfg, k, g, gaps_ms[k - 1]), wit.clone());
+      break;
+    }
+    if max == 0 && *g > ivl + slack {
+      rep.violation("refused_retry_gap_grows_without_ivl_max".to_string(), format!("{}: gap {} is {} ms although RECONNECT_IVL_MAX=0 means a constant interval", cfg, k, g), wit.clone());
+      break;
+    }
+  }
+  // the listener appears: traffic must start within max(ivl, max) + slack
+  let rctx = util::new_ctx();
+  let pull = rctx.socket(SocketType::Pull).unwrap();
+  util::set_i32(&pull, opt::RCVTIMEO, 8000).await;
+  if pull.bind(&ep).await.is_err() {
+    rep.inconclusive("could not bind the dead port for the resumption phase".to_string());
+  } else {
+    let t1 = Instant::now();
+    let s = push.send(util::msg(b"first".to_vec(), false)).await;
+    let r = pull.recv().await;
+    let bound_ms = (if max > 0 { max.max(ivl) } else { ivl }) * 2 + 2000;
+    if !matches!(&r, Ok(m) if m.data() == Some(b"first")) || t1.elapsed() > Duration::from_millis(bound_ms) {
+      rep.violation("traffic_did_not_start_after_listener_appeared".to_string(), format!("{}: once a PULL listened on the port: send {:?}, recv {:?} after {:?}", cfg, s.map_err(|e| e.to_string()), r.map(|m| m.size()).map_err(|e| e.to_string()), t1.elapsed()), json!({"config": cfg}));
+    }
+  }
+  let _ = tokio::time::timeout(Duration::from_secs(12), ctx.term()).await;
+  let _ = tokio::time::timeout(Duration::from_secs(12), rctx.term()).await;
+}
+
+/// (churn) "a socket is never shut down by what some other socket did": a bound PULL with a healthy PUSH peer (from
+/// another context) carrying sequenced traffic, while OTHER sockets of the PULL's own context are created, bound (or
+/// connected to a dead port) and closed in a tight loop for `secs` seconds - nothing is ever done to the PULL itself,
+/// apart from harmless get_option() calls at the given pace. Afterwards the PULL's API must still answer, its healthy
+/// connection must not have been dropped, the stream must be complete, and its listener must serve a new peer.
+async fn churn_case(rep: &mut Report, rng: &mut Rng, tr: Transport, kind: &'static str, api_gap_us: u64, secs: u64, pace_ms: u64) {
+  let ctx = util::new_ctx();
+  let peer_ctx = util::new_ctx();
+  let pull = ctx.socket(SocketType::Pull).unwrap();
+  util::set_i32(&pull, opt::RCVTIMEO, 400).await;
+  let push = peer_ctx.socket(SocketType::Push).unwrap();
+  util::set_i32(&push, opt::SNDTIMEO, 3000).await;
+  util::set_i32(&push, opt::RECONNECT_IVL, 60_000).await;
+  let push_mon = push.monitor(1024).await.unwrap();
+  let ep = match util::bind_fresh(&pull, tr).await {
+    Ok(e) => e,
+    Err(e) => {
+      rep.inconclusive(format!("bind {e}"));
+      return;
+    }
+  };
+  push.connect(&ep).await.unwrap();
+  tokio::time::sleep(Duration::from_millis(300)).await;
+  let run = (rng.next() & 0x7FFF_FFFF) as u32;
+  let stop = std::sync::Arc::new(std::sync::atomic::AtomicBool::new(false));
+  // healthy traffic
+  let push2 = push.clone();
+  let stop_s = stop.clone();
+  let sender = tokio::spawn(async move {
+    let mut sent = vec![];
+    let mut seq = 0u32;
+    while !stop_s.load(std::sync::atomic::Ordering::SeqCst) {
+      let lens = vec![HDR + (seq as usize * 13) % 300];
+      let fr = oracles::build_message(run, 1, seq, u32::MAX, &lens);
+      let r = push2.send(util::msg(fr[0].clone(), false)).await;
+      sent.push(SentMsg { sender: 1, seq, dest: u32::MAX, frame_lens: lens, status: if r.is_ok() { SendStatus::Accepted } else { SendStatus::Maybe } });
+      if r.is_err() {
+        break;
+      }
+      seq += 1;
+      tokio::time::sleep(Duration::from_millis(3)).await;
+    }
+    sent
+  });
+  let pull2 = pull.clone();
+  let stop_r = stop.clone();
+  let reader = tokio::spawn(async move {
+    let mut got: Vec<Vec<Vec<u8>>> = vec![];
+    let mut idle = 0;
+    let mut errs: Vec<String> = vec![];
+    loop {
+      match pull2.recv_multipart().await {
+        Ok(m) => {
+          idle = 0;
+          got.push(m.into_iter().map(|f| f.data().unwrap_or(&[]).to_vec()).collect());
+        }
+        Err(rzmq::ZmqError::Timeout) | Err(rzmq::ZmqError::ResourceLimitReached) => {
+          if stop_r.load(std::sync::atomic::Ordering::SeqCst) {
+            idle += 1;
+          }
+          if idle > 4 {
+            break;
+          }
+        }
+        Err(e) => {
+          if errs.len() < 4 {
+            errs.push(util::err_kind(&e));
+          }
+          idle += 1;
+          if idle > 4 {
+            break;
+          }
+          tokio::time::sleep(Duration::from_millis(100)).await;
+        }
+      }
+    }
+    (got, errs)
+  });
+  // harmless API calls on the victim
+  let pull3 = pull.clone();
+  let stop_a = stop.clone();
+  let api = tokio::spawn(async move {
+    let mut calls = 0u64;
+    let mut failures: Vec<String> = vec![];
+    while !stop_a.load(std::sync::atomic::Ordering::SeqCst) {
+      calls += 1;
+      if let Err(e) = pull3.get_option(opt::RCVHWM).await {
+        if failures.len() < 4 {
+          failures.push(format!("call {}: {:?}", calls, e));
+        }
+        if failures.len() >= 4 {
+          break;
+        }
+      }
+      if api_gap_us > 0 {
+        tokio::time::sleep(Duration::from_micros(api_gap_us)).await;
+      } else {
+        tokio::task::yield_now().await;
+      }
+    }
+    (calls, failures)
+  });
+  // the churn: other sockets of the same context come and go
+  // back-to-back churn comes from three tasks at once (an application that opens a socket per request on several tasks)
+  let mut extra_churn = vec![];
+  for _ in 0..(if pace_ms == 0 { 2 } else { 0 }) {
+    let c3 = ctx.clone();
+    let stop_e = stop.clone();
+    extra_churn.push(tokio::spawn(async move {
+      while !stop_e.load(std::sync::atomic::Ordering::SeqCst) {
+        let mut v = vec![];
+        for _ in 0..4 {
+          if let Ok(x) = c3.socket(SocketType::Pull) {
+            if kind == "bind_close" {
+              let _ = x.bind("tcp://127.0.0.1:0").await;
+            }
+            v.push(x);
+          }
+        }
+        for x in v {
+          let _ = x.close().await;
+        }
+      }
+    }));
+  }
+  let c2 = ctx.clone();
+  let stop_c = stop.clone();
+  let churn = tokio::spawn(async move {
+    let mut cycles = 0u64;
+    while !stop_c.load(std::sync::atomic::Ordering::SeqCst) {
+      let mut v = vec![];
+      for k in 0..4 {
+        if let Ok(x) = c2.socket(if k % 2 == 0 { SocketType::Pull } else { SocketType::Dealer }) {
+          match kind {
+            "bind_close" => {
+              let _ = x.bind("tcp://127.0.0.1:0").await;
+            }
+            "connect_dead_close" => {
+              let _ = x.set_option(opt::RECONNECT_IVL, 10).await;
+              let _ = x.connect("tcp://127.0.0.1:9").await;
+            }
+            _ => {}
+          }
+          v.push(x);
+        }
+      }
+      for x in v {
+        let _ = x.close().await;
+      }
+      cycles += 1;
+      if pace_ms > 0 {
+        tokio::time::sleep(Duration::from_millis(pace_ms)).await;
+      }
+    }
+    cycles
+  });
+  tokio::time::sleep(Duration::from_secs(secs)).await;
+  stop.store(true, std::sync::atomic::Ordering::SeqCst);
+  let cycles = tokio::time::timeout(Duration::from_secs(20), churn).await.ok().and_then(|x| x.ok()).unwrap_or(0);
+  for h in extra_churn {
+    let _ = tokio::time::timeout(Duration::from_secs(20), h).await;
+  }
+  let (calls, api_failures) = tokio::time::timeout(Duration::from_secs(10), api).await.ok().and_then(|x| x.ok()).unwrap_or((0, vec!["api task did not finish".into()]));
+  let sent = tokio::time::timeout(Duration::from_secs(10), sender).await.ok().and_then(|x| x.ok()).unwrap_or_default();
+  let (got, reader_errs) = tokio::time::timeout(Duration::from_secs(20), reader).await.ok().and_then(|x| x.ok()).unwrap_or_default();
+  let cfg = format!("bound PULL over {} with one healthy PUSH peer; other sockets of its context: {} x4 per cycle, {} ms between cycles, {} cycles in {} s; get_option() on the PULL every {} us ({} calls)", tr.name(), kind, pace_ms, cycles, secs, api_gap_us, calls);
+  rep.case(&("churn", tr, kind, api_gap_us, secs, pace_ms), true);
+  rep.count("churn_cycles", cycles);
+  rep.count("churn_victim_api_calls", calls);
+  rep.count("churn_healthy_messages_accepted", sent.iter().filter(|x| x.status == SendStatus::Accepted).count() as u64);
+  if cycles < 5 {
+    rep.inconclusive(format!("churn barely ran ({} cycles): {}", cycles, cfg));
+  }
+  // (a) the victim's API
+  let probe = tokio::time::timeout(Duration::from_secs(3), pull.get_option(opt::RCVHWM)).await;
+  let api_dead = !matches!(probe, Ok(Ok(_)));
+  if !api_failures.is_empty() || api_dead {
+    rep.violation(
+      "socket_shut_down_by_other_sockets_of_the_context".to_string(),
+      format!("{}: get_option() on the PULL - which nothing was done to - failed: {:?}; a call after the churn: {:?}", cfg, api_failures, probe.map(|r| r.map(|_| ()).map_err(|e| e.to_string())).map_err(|_| "no answer within 3 s")),
+      json!({"config": cfg, "api_failures": api_failures, "reader_errors": reader_errs}),
+    );
+  }
+  // (b) the healthy connection and its stream
+  let mut dropped = false;
+  while let Ok(Ok(ev)) = tokio::time::timeout(Duration::from_millis(20), push_mon.recv()).await {
+    if matches!(ev, SocketEvent::Disconnected { .. }) {
+      dropped = true;
+    }
+  }
+  let f = oracles::check_receiver(run, &sent, &got, None, true);
+  if dropped || !f.ok() {
+    rep.violation(
+      "healthy_connection_hit_by_other_sockets_of_the_context".to_string(),
+      format!("{}: healthy PUSH saw Disconnected: {}; stream: received {} of {} accepted, findings {}", cfg, dropped, got.len(), sent.iter().filter(|x| x.status == SendStatus::Accepted).count(), f.kinds().join("+")),
+      json!({"config": cfg, "findings": f.to_json(), "reader_errors": reader_errs}),
+    );
+  }
+  // (c) the listener: a new honest peer
+  let late_ctx = util::new_ctx();
+  let late = late_ctx.socket(SocketType::Push).unwrap();
+  util::set_i32(&late, opt::SNDTIMEO, 3000).await;
+  let _ = late.connect(&ep).await;
+  let _ = late.send(util::msg(b"late-peer".to_vec(), false)).await;
+  let mut served = false;
+  let t0 = Instant::now();
+  while t0.elapsed() < Duration::from_secs(4) {
+    match pull.recv().await {
+      Ok(m) if m.data() == Some(b"late-peer") => {
+        served = true;
+        break;
+      }
+      Ok(_) => {}
+      Err(_) => tokio::time::sleep(Duration::from_millis(50)).await,
+    }
+  }
+  if !served {
+    rep.violation(
+      "listener_stopped_by_other_sockets_of_the_context".to_string(),
+      format!("{}: a new PUSH connecting to the PULL's endpoint afterwards was not served within 4 s", cfg),
+      json!({"config": cfg}),
+    );
+  }
+  let _ = tokio::time::timeout(Duration::from_secs(12), late_ctx.term()).await;
+  let _ = tokio::time::timeout(Duration::from_secs(12), peer_ctx.term()).await;
+  let _ = tokio::time::timeout(Duration::from_secs(12), ctx.term()).await;
+}
+
 fn main() {
   let args = Args::parse();
   util::install_panic_watch();
@@ -402,6 +727,34 @@ fn main() {
   let rt = util::runtime(2);
   match args.only.as_deref() {
     Some("arith") => arith_layer(&mut rep),
+    Some("churn") => {
+      let rt4 = util::runtime(4);
+      let mut i = 0;
+      for tr in [Transport::Tcp, Transport::Ipc] {
+        for kind in ["bind_close", "connect_dead_close", "create_close"] {
+          for gap in [0u64, 200, 5000] {
+            i += 1;
+            if !args.mine(i) {
+              continue;
+            }
+            if !args.thorough() && tr == Transport::Ipc && gap != 0 {
+              continue;
+            }
+            let pace = [0u64, 20, 5][i % 3];
+            util::guarded(&rt4, churn_case(&mut rep, &mut rng, tr, kind, gap, if args.thorough() { 6 } else { 3 }, pace));
+          }
+        }
+      }
+      util::cleanup_ipc_dir();
+    }
+    Some("refused") => {
+      let grid: &[(u64, u64)] = if args.thorough() { &[(100, 0), (100, 250), (100, 1000), (50, 400), (200, 200), (300, 700), (10, 35), (100, 150), (250, 2000)] } else { &[(100, 0), (100, 250), (100, 1000), (50, 400), (200, 200), (300, 700)] };
+      for (i, (ivl, max)) in grid.iter().enumerate() {
+        if args.mine(i) {
+          util::guarded(&rt, refused_case(&mut rep, *ivl, *max));
+        }
+      }
+    }
     Some("reconnect") => {
       for (i, (ivl, max)) in [(100u64, 0u64), (50, 400), (200, 200), (100, 1000)].iter().enumerate() {
         if args.mine(i) {
